@@ -22,8 +22,8 @@ THEOREMS = [
     "order_sorted_perm", "order_limit_slice", "topn_eq_order_limit", "limit_count", "limit_subset",
     "absent_limit", "limit_exec_spec", "topn_absent_limit", "merge_iter_sorted", "memtable_sorted",
     "compaction_sorted_perm", "merge_heap_sorted", "topn_heap_eq_order_limit",
-    "concat_scan_sorted_iff", "two_rowsets_witness", "scan_contract_unsound", "order_analysis_sound",
-    "useless_order_sound_partial", "useless_order_unsound",
+    "concat_scan_sorted_iff", "table_scan_sorted", "two_rowsets_scan_sorted", "scan_contract_sorted", "order_analysis_sound",
+    "useless_order_sound_partial", "useless_order_sound",
 ]
 
 PRECEDENCE = [
